@@ -25,6 +25,12 @@ type Prop struct {
 	Exhaustive func(tier string) string
 	// Extra lets a property add keys to coverage.
 	Extra func(m *Merged, cov map[string]any)
+	// Env returns extra environment variables for a worker process.
+	Env func(shard, nshards int, workDir string) []string
+	// Post runs in the driver after all workers finished (e.g. scanning race-detector logs).
+	Post func(workDir string, m *Merged) []*core.Violation
+	// DeadWorkerIsViolation: a worker killed by a fatal runtime error is itself a refutation (concurrency properties).
+	DeadWorkerIsViolation bool
 }
 
 // Merged is the union of all worker summaries.
